@@ -55,4 +55,22 @@ PROPS = {
         "trusted": ["jwx: jwk.Key.Validate, jwa algorithm classification, jwk.Parse, key generation and jws sign/verify are inputs to the model (k_valid, k_has_alg, k_is_sig, names), not verified"],
         "partial": "jwx validation, key generation and real signatures are exercised by the correspondence only",
     },
+    "C03": {
+        "coq_deps": ["Props/C03.v", "Props/C16.v"],
+        "rule": "grammar-generated well-formed pipeline documents (DESIGN Appendix A: every step kind and shorthand, primary/alias key combinations incl. both command and commands, plugins as list / mapping / strings / multi-entry elements, matrix list/setup/adjustments, cache bool/string/list/mapping, signatures, groups nested to depth 2, unknown kinds, extra keys with nested values of every scalar kind incl. timestamps, keys that look like other YAML types) rendered as JSON, block YAML or flow YAML; the text goes to pipeline.Parse, and ordered.DecodeYAML of the same text goes to the Coq model; observable: status, step count, canonical JSON of json.Marshal(p) with member order and number tokens; oracle (no data loss): every unique marker placed in an unknown key/value, plugin config, label etc. appears exactly once in the JSON and in the YAML marshalling. Non-trivial: every generated document.",
+        "trusted": ["yaml.v3 scanner/parser/resolver and encoding/json's text encoder are shared input/output (the model starts at DecodeYAML's value tree and ends at a JSON value)", "float tokens (json.Marshal, fmt.Sprint of float64) are harness oracles"],
+        "partial": "the YAML/JSON text layer is not modelled; a stand-alone declarative nf is not written: the normal form is the executable model composition, with losslessness theorems per struct level",
+    },
+    "C07": {
+        "coq_deps": ["Props/C07.v"],
+        "rule": "YAML texts with anchors, aliases (as values and as keys), << merges (single, repeated, sequences of aliases, nested, of enclosing mappings), canonicalisable keys, merges of non-mappings, and aliases to enclosing nodes (value cycles) generated from a seeded grammar plus 16 hand-picked shapes; yaml.v3 parses the text, the node graph (pointer identity -> ids, per-scalar decoded value / canonical key / merge tag as oracle inputs) goes to the model; observable: decoded value tree or error; oracles: value cycle => error, pure merge cycle and acyclic documents decode, no two positions share a map or slice (independent copies), content equals yaml.v3's own decoding where yaml.v3 accepts the document; 20 s watchdog. Non-trivial = document uses at least one alias.",
+        "trusted": ["yaml.v3 node construction (anchors registered before children are parsed) and per-scalar decoding / key canonicalisation are inputs"],
+        "partial": "the denotational theorem decode = sem (Appendix B) is not proved; proved instead: totality for all graphs, value-cycle rejection, and the per-mapping merge rules (skip_keys / explicit_keys); content agreement with yaml.v3 is checked by the oracle",
+    },
+    "C13": {
+        "coq_deps": ["Props/C13.v"],
+        "rule": "grammar-generated documents, three quarters with type errors injected at random positions of the grammar (mappings/lists/timestamps/+Inf where strings are expected, non-mapping steps, non-string type, wrong-typed env / plugins / matrix / cache / signature / adjustments), rendered as JSON / block / flow YAML, compared with the Coq model (status, fallback count, step count, marshalled JSON); plus byte-level mutations (delete / insert YAML punctuation, anchors, aliases, merges, invalid UTF-8 / overwrite / cut) of rendered documents under a 20 s watchdog with recover. Oracles on every usable result: Steps non-nil, no nil step, one step per input entry, number of UnknownSteps = number of fallbacks reported in the warning, json.Marshal and yaml.Marshal succeed. Non-trivial = at least one injected type error.",
+        "trusted": ["yaml.v3 scanner/parser (byte level) is not modelled; the mutation stream is a test, not a proof"],
+        "partial": "for all byte strings: only from the decoded node graph on is proved (totality of the model, fuel bound, completeness, warning count, marshallability); yaml.v3's scanner totality is exercised by the byte-mutation stream only",
+    },
 }
